@@ -83,17 +83,14 @@ func parseLocation(zone string) (*time.Location, error) {
 	if zone == "" {
 		return time.UTC, nil
 	}
-	if tm, err := time.Parse("MST", zone); err == nil {
-		return tm.Location(), nil
-	}
 	if tm, err := time.Parse("Z07:00", zone); err == nil {
 		return tm.Location(), nil
 	}
-	if zone == "Local" {
-		return time.Local, nil
-	}
 	// A named zone: the JSON unmarshaller stores its default time zone by name
-	// (e.g. "America/New_York") in the elements that have none of their own.
+	// (e.g. "America/New_York", "EST", "Local") in the elements that have none of
+	// their own. Names are resolved through the zone database only: parsing them
+	// as an abbreviation ("MST") would consult the process time zone and invent
+	// a zero-offset zone for every abbreviation that zone does not use.
 	if loc, err := time.LoadLocation(zone); err == nil {
 		return loc, nil
 	}
